@@ -49,6 +49,7 @@ type Report struct {
 	Assumptions []string
 	Analysed    map[string]int // what was analysed: functions, sites, ...
 	Errors      []string       // checker errors (unresolved anchors, floors) -> exit 2
+	Extra       map[string]any // additional coverage keys (thorough tier)
 }
 
 func (r *Report) rule(id, text string, floor int) *RuleInfo {
@@ -328,6 +329,9 @@ func (r *Report) finish(verifDir string, wall float64, seed int, explanation str
 		"assumptions": usedAssumptions,
 		"wall_s":      wall,
 		"violations":  violations,
+	}
+	for k, v := range r.Extra {
+		ev["coverage"].(map[string]any)[k] = v
 	}
 	b, _ := json.MarshalIndent(ev, "", " ")
 	if err := os.WriteFile(filepath.Join(evDir, r.Prop+".json"), append(b, '\n'), 0o644); err != nil {
